@@ -110,12 +110,15 @@ class TrigGen(genprog.Gen):
         xs = self.pick(vs) if vs and self.r.random() < 0.7 else self.pick(["[1, 2]", "[]", "[0]"])
         shape = self.r.randrange(4)
         self.note("list_len shape %d" % shape)
-        op = self.pick(["==", "!="])
+        # the lint rewrites `.len() == 0` / `!= 0` (either operand order); the other comparison operators and constants
+        # are near misses it must leave alone or rewrite correctly (`0 > xs.len()` is not `xs.len() > 0`)
+        op = self.pick(["==", "!=", "==", "!=", ">", "<", ">=", "<="])
         sp = self.pick([" ", "  ", ""])
+        k = "0" if self.r.random() < 0.8 else "1"
         if shape == 0:
-            return "%s.len()%s%s%s0" % (xs, sp, op, sp)
+            return "%s.len()%s%s%s%s" % (xs, sp, op, sp, k)
         if shape == 1:
-            return "0%s%s%s%s.len()" % (sp, op, sp, xs)
+            return "%s%s%s%s%s.len()" % (k, sp, op, sp, xs)
         if shape == 2:
             return "(%s.len() %s 0)" % (xs, op)
         return "%s.len() %s 0 %s %s.len() %s 0" % (xs, op, self.pick(["||", "&&"]), xs, op)
